@@ -20,17 +20,31 @@ Step(r) == IF r.act = "Deliver"
            THEN [act |-> "DeliverK", args |-> [kind |-> r.kind, s |-> r.s, c |-> r.c, n |-> r.n, v |-> r.k1]]
            ELSE IF r.act = "Deliver2"
            THEN [act |-> "Deliver2", args |-> [k1 |-> r.k1, k2 |-> r.kind, s |-> r.s, c |-> r.c, ord |-> r.ord]]
-           ELSE [act |-> r.act, args |-> [g |-> r.s, e |-> r.c]]
+           ELSE IF r.act = "Reimport" THEN [act |-> "Reimport", args |-> [w |-> 0]]
+           ELSE [act |-> r.act, args |-> [g |-> r.s, e |-> r.c, ak |-> IF r.k1 = "" THEN "basic" ELSE r.k1]]
 
 NoGrants == \A pr \in Pairs : grants[pr] = "none"
-GGrant == \E pr \in Pairs :
-   \/ grants[pr] = "none" /\ (Grant(pr[1], pr[2]) \/ GrantExp(pr[1], pr[2]))
+PlainBasicG == \A pr \in Pairs : gkind[pr] \in {"-", "basic"}
+GGrant == PlainBasicG /\ \E pr \in Pairs :
+   \/ grants[pr] = "none" /\ (Grant(pr[1], pr[2], "basic") \/ GrantExp(pr[1], pr[2], "basic"))
    \/ grants[pr] = "active" /\ Revoke(pr[1], pr[2])
+\* the other kinds of allowance (periodic, allowed-msg wrapping basic / periodic, each without / with a later expiration /
+\* expired): only the allowance of the other principal for a signer, nothing else stored
+GGrantKind == NoGrants /\ \E pr \in Pairs : pr[2] \in Signers /\
+   \/ \E ak \in AKinds \ {"basic"} : Grant(pr[1], pr[2], ak)
+   \/ \E ak \in BaseKinds \ {"basic"} : GrantExp(pr[1], pr[2], ak)
 
 NamedFor(k, c) == IF Full THEN P
                   ELSE IF c = Gov THEN {Gov}
                   ELSE IF KT[k].target = "none" THEN {c} ELSE P
-GDeliverUser == \E k \in Kinds, s \in Signers, c \in P : \E n \in NamedFor(k, c) : Deliver(k, s, c, n)
+\* quick tier: the named principal only varies where it can matter - a creator that is neither the signer nor its grantor is
+\* refused by the ante chain whatever the body says, and for creator = signer the stored allowances are irrelevant (the
+\* named principal varies under "no allowance" and "B->A active" only)
+NamedQ(k, s, c) == IF Full THEN P
+                   ELSE IF c # s /\ ~Granted(grants, c, s) THEN {c}
+                   ELSE IF c = s /\ ~(grants[<<A, B>>] = "none" /\ grants[<<B, A>>] \in {"none", "active"}) THEN {c}
+                   ELSE NamedFor(k, c)
+GDeliverUser == \E k \in Kinds, s \in Signers, c \in P : \E n \in NamedQ(k, s, c) : Deliver(k, s, c, n)
 GovSample == {"VaKeepAlive", "TrUpsertRelayerFee", "SkSendToPalomaClaim", "TfMint", "ScCreateJob"}
 GDeliverGov == NoGrants /\ \E k \in Kinds :
    IF KT[k].gov THEN \E cn \in {<<Gov, Gov>>, <<A, Gov>>, <<Gov, A>>} : Deliver(k, Gov, cn[1], cn[2])
@@ -48,17 +62,24 @@ GDeliver2 == \E k1 \in Honest2, s \in Signers, c \in Users, ord \in {1, 2} : \E 
 \* key collisions: every keyed kind x creator, owner of the collided object x every variant; only under fee-grant
 \* relations without revoked / expired allowances (quick: A->B none, B->A none or active)
 KGrants == \A pr \in Pairs : grants[pr] \in {"none", "active"}
-GDeliverK == KGrants /\ (Full \/ grants[<<A, B>>] = "none") /\
+GDeliverK == KGrants /\ (Full \/ NoGrants) /\
              \E k \in Keyed, s \in Signers, c \in Users, n \in Users, v \in Variants : DeliverK(k, s, c, n, v)
 
-GAct == GGrant \/ GDeliverUser \/ GDeliverGov \/ GDeliver2 \/ GDeliverK
-Delivered == last.act \in {"Deliver", "Deliver2", "DeliverK"}
+\* under the other allowance kinds: the signer acts in the grantor's name, one message kind per module
+GDeliverKindSample == ~PlainBasicG /\ \E k \in Sample2, s \in Signers, c \in Users : s # c /\ Deliver(k, s, c, c)
+
+GAct == GGrant \/ GGrantKind \/ GDeliverKindSample \/ (PlainBasicG /\ (GDeliverUser \/ GDeliverGov \/ GDeliver2 \/ GDeliverK))
+\* the export / import perturbation follows a successful delivery of a signer in its own name (every kind: the world of the
+\* kind holds the objects of its module for A and B; the ...Handed worlds hold objects whose ownership was handed over)
+CanReimport == /\ last.act = "Deliver" /\ res = "ok" /\ NoGrants /\ Len(hist) = 1 /\ last.s \in Signers /\ last.s = last.c
+               /\ (Full \/ last.n = last.c)
+Delivered == last.act \in {"Deliver", "Deliver2", "DeliverK", "Reimport"}
 \* a delivered history is emitted and not extended; the grant steps are not part of the view (two orders of the
 \* same grants give one relation)
 GNextC == (IF Delivered THEN PrintT(<<"HIST", ToJson(hist)>>) ELSE TRUE)
-          /\ ~Delivered /\ GAct /\ hist' = Append(hist, Step(last'))
+          /\ ((~Delivered /\ GAct) \/ (CanReimport /\ Reimport)) /\ hist' = Append(hist, Step(last'))
 \* (Deliver prunes an expired allowance, so the relation the transaction saw is taken from the history)
-GView == <<grants, IF Delivered THEN <<last, SubSeq(hist, 1, Len(hist) - 1)>> ELSE <<>> >>
+GView == <<grants, gkind, IF Delivered THEN <<last, SubSeq(hist, 1, Len(hist) - 1)>> ELSE <<>> >>
 QuickGrants == /\ grants[<<A, B>>] \in {"none", "active"}
                /\ (grants[<<A, B>>] = "active" => grants[<<B, A>>] = "none")
 GConstr == /\ nops <= MaxOps
